@@ -10,8 +10,32 @@ import sys
 import common as C
 import gen as G
 
-THEOREMS = ['carry_never_reads_out_of_bounds', 'at_axis_operations_never_read_out_of_bounds',
-            'valid_layouts_can_always_be_read']
+THEOREMS = ['carry_never_reads_out_of_bounds',
+            'at_axis_operations_never_read_out_of_bounds',
+            'valid_layouts_can_always_be_read',
+            'clean_means_no_oob_no_fuel',
+            'at_axis_descent_is_as_clean_as_its_action',
+            'at_axis_operations_clean_on_any_layout',
+            'combinations_never_reads_out_of_bounds',
+            'flatten_never_reads_out_of_bounds',
+            'flatten_never_reads_out_of_bounds_chars',
+            'fillna_never_reads_out_of_bounds',
+            'field_never_reads_out_of_bounds',
+            'fields_never_reads_out_of_bounds',
+            'setfield_clean_on_any_layout',
+            'reduce_never_reads_out_of_bounds_partial',
+            'sort_never_reads_out_of_bounds',
+            'sort_on_innermost_axis_never_declines',
+            'getitem_never_reads_out_of_bounds_wide',
+            'getitem_with_arrays_never_reads_out_of_bounds',
+            'getitem_never_reads_out_of_bounds_partial',
+            'getitem_array_never_reads_out_of_bounds',
+            'range_slice_never_reads_out_of_bounds',
+            'validity_check_total_on_any_layout',
+            'reading_any_layout_never_hangs',
+            'type_level_functions_fail_cleanly',
+            'memory_safety_of_all_modelled_operations',
+            'results_do_not_depend_on_the_buffers']
 NEEDS_SAN = True
 DRIVERS = ('awkdrv', 'pydrv')
 RULE = ('union of the generators of C01 C03 C05 C06 C07 C09 C10 (valid layouts x operations x arguments) plus an invalid '
